@@ -8,6 +8,7 @@
   the current form violates the property (defect F4).
 -/
 import SnowProofs.Props.C08
+import SnowProofs.Props.C07
 
 namespace Snow.C11
 open Snow Num Snow.C08
@@ -296,5 +297,146 @@ theorem nonvacuous :
   have hm : p.const.mass = 1 := rfl
   rw [hA, hK, hc, hm]
   norm_num
+
+
+/-! ## 2D model (`SnowModel/Snowing2D.lean`; its controlled-nucleation test is the repaired
+`T_k.min() <= cnTemp + 273.15`, which is what /repo now contains) -/
+
+open Snow.S2D in
+/-- **2D**: the cooling stage ends at the first step at which the coldest point of the product is
+`≤ cn + 273.15`, and not before. -/
+theorem cn_trigger_first_2D (p : Par ℝ) (f : Flags) (T0C : ℝ) (prof : List ℝ) (NtExp : ℕ) (Frand cn : ℝ)
+    (i : ℕ) :
+    (cool2D p f T0C prof NtExp Frand (some cn)).1 = some i ↔
+      i < prof.length ∧ S2D.minA (st2D p f T0C prof NtExp i).T ≤ cn + 273.15 ∧
+        ∀ j, j < i → cn + 273.15 < S2D.minA (st2D p f T0C prof NtExp j).T := by
+  have hk : (kelvin : ℝ) = 273.15 := by simp only [kelvin, lit_real]; norm_num
+  unfold cool2D
+  rw [loopUntil_fst_some_iff]
+  simp only [coolStopSt, st2D, shelfK, List.length_map, hk, decide_eq_true_eq, decide_eq_false_iff_not,
+    not_le]
+
+open Snow.S2D in
+/-- field before cooling step `i` of the 2D loop -/
+noncomputable def prev2D (p : Par ℝ) (f : Flags) (T0C : ℝ) (prof : List ℝ) (NtExp : ℕ) : ℕ → CoolSt ℝ
+  | 0 => coolInit2D (mkCtx p f) T0C
+  | i + 1 => st2D p f T0C prof NtExp i
+
+open Snow.S2D in
+theorem st2D_step (p : Par ℝ) (f : Flags) (T0C : ℝ) (prof : List ℝ) (NtExp : ℕ) (i : ℕ)
+    (hi : i < (shelfK prof).length) :
+    st2D p f T0C prof NtExp i =
+      coolStep2D p f NtExp i (prev2D p f T0C prof NtExp i) ((shelfK prof)[i]) := by
+  cases i with
+  | zero => unfold st2D; rw [stateAt_zero _ _ _ hi]; rfl
+  | succ k => unfold st2D; rw [stateAt_succ _ _ _ _ hi]; rfl
+
+open Snow.S2D in
+theorem prev2D_size (p : Par ℝ) (f : Flags) (T0C : ℝ) (prof : List ℝ) (NtExp : ℕ) (i : ℕ) :
+    (prev2D p f T0C prof NtExp i).T.size = p.Nz * p.Nr := by
+  cases i with
+  | zero => simp [prev2D, coolInit2D, mkCtx]
+  | succ k => exact st2D_size p f T0C prof NtExp k
+
+open Snow.S2D in
+/-- entry `x` of a flat field, read as node `(x / Nr, x % Nr)` -/
+theorem rd_of_index (Nr : ℕ) (A : Array ℝ) (x : ℕ) (_hx : x < A.size) (_hNr : 0 < Nr) :
+    rd Nr A (x / Nr) (x % Nr) = aget A x := by
+  have : x / Nr * Nr + x % Nr = x := by rw [Nat.mul_comm]; exact Nat.div_add_mod x Nr
+  simp [rd, aget, this]
+
+open Snow.S2D Snow.C07 in
+/-- **2D maximum principle, one cooling step of the repaired code without evaporation**: the new
+coldest point is not below `min(old coldest point, shelf temperature)` -/
+theorem coolStep2D_min_ge (p : Par ℝ) (f : Flags) (hf : f.inplace = false) (hcfg : p.config ≠ Config.visf)
+    (hNz : 2 ≤ p.Nz) (hNr : 2 ≤ p.Nr) (hR : 0 < radius p)
+    (hstab : Stab (mkCtx p f).a0 (mkCtx p f).dz (mkCtx p f).dr
+      (p.K_shelf * (mkCtx p f).dz / (mkCtx p f).k0) ((mkCtx p f).Kw * (mkCtx p f).eSp / (mkCtx p f).k0))
+    (NtExp i : ℕ) (s : CoolSt ℝ) (hT : s.T.size = p.Nz * p.Nr) (Tsh : ℝ) :
+    Min.min (Snow.minA s.T) Tsh ≤ Snow.minA (coolStep2D p f NtExp i s Tsh).T := by
+  set c := mkCtx p f with hc
+  have hNpos : 0 < p.Nz * p.Nr := Nat.mul_pos (by omega) (by omega)
+  have hqe : ∀ t T, S2D.qEvap c false t T = fun _ => (0 : ℝ) := by
+    intro t T
+    unfold S2D.qEvap
+    have : c.p.config = p.config := rfl
+    rw [this]
+    cases hcf : p.config with
+    | shelf => simp
+    | visf => exact absurd hcf hcfg
+    | jacket => simp
+  have hstep : (coolStep2D p f NtExp i s Tsh).T = coolStep c false Tsh (fun _ => 0) s.T := by
+    simp only [coolStep2D, coolStepSt, ← hc, hqe]
+    have : c.f.inplace = false := by simp [hc, mkCtx, hf]
+    rw [this]
+  rw [hstep]
+  set lo := Min.min (Snow.minA s.T) Tsh with hlo
+  set hi := Max.max (Snow.maxA s.T) Tsh with hhi
+  have H : SweepHyp c Tsh lo hi (fun _ => 0) s.T := by
+    refine ⟨by simp [hc, mkCtx], by simp [hc, mkCtx], hNz, hNr, hT, hstab,
+      fun j h1 hj => r_ge_half_dr p f hR hNr j h1 hj, ⟨min_le_right _ _, le_max_right _ _⟩, ?_, ?_⟩
+    · intro a b ha hb
+      have hidx : a * p.Nr + b < s.T.size := by rw [hT]; exact idx_lt ha hb
+      have e : rd c.Nr s.T a b = aget s.T (a * p.Nr + b) := by simp [rd, aget, hc, mkCtx]
+      rw [e]
+      exact ⟨le_trans (min_le_left _ _) (minA_le s.T _ hidx), le_trans (le_maxA s.T _ hidx) (le_max_left _ _)⟩
+    · intro b hb
+      have ha : c.Nz - 1 < p.Nz := by simp only [hc, mkCtx]; omega
+      have hidx : (c.Nz - 1) * p.Nr + b < s.T.size := by rw [hT]; exact idx_lt ha hb
+      have e : rd c.Nr s.T (c.Nz - 1) b = aget s.T ((c.Nz - 1) * p.Nr + b) := by simp [rd, aget, hc, mkCtx]
+      simp only [zero_mul, zero_div, add_zero]
+      rw [e]
+      exact ⟨le_trans (min_le_left _ _) (minA_le s.T _ hidx), le_trans (le_maxA s.T _ hidx) (le_max_left _ _)⟩
+  have hsz : (coolStep c false Tsh (fun _ => 0) s.T).size = p.Nz * p.Nr := by
+    unfold coolStep; exact size_sweep _ _ _ _ _ hT
+  obtain ⟨x, hx, hm⟩ := minA_mem (coolStep c false Tsh (fun _ => 0) s.T) (by rw [hsz]; exact hNpos)
+  rw [hm, ← rd_of_index p.Nr _ x hx (by omega)]
+  have hxN : x < p.Nz * p.Nr := by rw [hsz] at hx; exact hx
+  have hdiv : x / p.Nr < p.Nz := by
+    rw [Nat.div_lt_iff_lt_mul (by omega)]; exact hxN
+  exact (maxprinciple2D_cool c Tsh lo hi (fun _ => 0) s.T H (x / p.Nr) (x % p.Nr) hdiv
+    (Nat.mod_lt _ (by omega))).1
+
+open Snow.S2D Snow.C07 in
+/-- **2D (repaired code, shelf / jacket configuration, stability hypotheses of C07)**: if the trigger
+temperature is below the initial temperature then `cnTemp ≥ T_nuc_min ≥ min(coldest point before the
+step, shelf temperature of the step)` and the coldest point before the step was still above
+`cnTemp` – the nucleation temperature is within one step's cooling of the requested value. -/
+theorem cn_Tnuc_close_2D (p : Par ℝ) (f : Flags) (hf : f.inplace = false) (hcfg : p.config ≠ Config.visf)
+    (hNz : 2 ≤ p.Nz) (hNr : 2 ≤ p.Nr) (hR : 0 < radius p)
+    (hstab : Stab (mkCtx p f).a0 (mkCtx p f).dz (mkCtx p f).dr
+      (p.K_shelf * (mkCtx p f).dz / (mkCtx p f).k0) ((mkCtx p f).Kw * (mkCtx p f).eSp / (mkCtx p f).k0))
+    (T0C : ℝ) (prof : List ℝ) (NtExp : ℕ) (Frand cn : ℝ) (h0 : cn < T0C) (r : Result ℝ)
+    (h : run p f T0C prof NtExp Frand (some cn) = .ok r) :
+    ∃ hi : r.iCool < prof.length,
+      r.TnucMin ≤ cn ∧
+      cn + 273.15 < Snow.minA (prev2D p f T0C prof NtExp r.iCool).T ∧
+      Min.min (Snow.minA (prev2D p f T0C prof NtExp r.iCool).T - 273.15) prof[r.iCool] ≤ r.TnucMin := by
+  have hk : (kelvin : ℝ) = 273.15 := by simp only [kelvin, lit_real]; norm_num
+  obtain ⟨hc, _, _, _⟩ := run2D_cool p f T0C prof NtExp Frand (some cn) r h
+  obtain ⟨hT, _⟩ := stats_at_nucleation_instant_2D p f T0C prof NtExp Frand (some cn) r h
+  obtain ⟨hi, hle, hprev⟩ := (cn_trigger_first_2D p f T0C prof NtExp Frand cn r.iCool).mp hc
+  have hi' : r.iCool < (shelfK prof).length := by simpa [shelfK] using hi
+  have hNpos : 0 < p.Nz * p.Nr := Nat.mul_pos (by omega) (by omega)
+  have hprevgt : cn + 273.15 < Snow.minA (prev2D p f T0C prof NtExp r.iCool).T := by
+    cases hic : r.iCool with
+    | zero =>
+      obtain ⟨x, hx, hm⟩ := minA_mem (prev2D p f T0C prof NtExp 0).T (by rw [prev2D_size]; exact hNpos)
+      rw [hm]
+      simp only [prev2D, coolInit2D] at hx ⊢
+      rw [aget_replicate _ _ _ (by simpa using hx)]
+      simp only [zero_real, hk, zero_add]; linarith
+    | succ k => exact hprev k (by omega)
+  refine ⟨hi, by rw [hT, C08.minA_2D] at *; linarith, hprevgt, ?_⟩
+  rw [hT, C08.minA_2D, st2D_step p f T0C prof NtExp r.iCool hi']
+  have := coolStep2D_min_ge p f hf hcfg hNz hNr hR hstab NtExp r.iCool (prev2D p f T0C prof NtExp r.iCool)
+    (prev2D_size p f T0C prof NtExp r.iCool) ((shelfK prof)[r.iCool])
+  have hs : (shelfK prof)[r.iCool] = prof[r.iCool] + 273.15 := by simp [shelfK, hk]
+  rw [hs] at this ⊢
+  have e : Min.min (Snow.minA (prev2D p f T0C prof NtExp r.iCool).T - 273.15) prof[r.iCool]
+      = Min.min (Snow.minA (prev2D p f T0C prof NtExp r.iCool).T) (prof[r.iCool] + 273.15) - 273.15 := by
+    rw [← min_sub_sub_right]; ring_nf
+  rw [e]
+  linarith
 
 end Snow.C11
